@@ -229,20 +229,22 @@ class _Yaml:
 
 
 @contract("C16", "attrs_roundtrip", [IO + "pack_attrs", IO + "unpack_attrs"],
-          patches=[("holopy.core.io.io", "yaml", _Yaml)], no_crosscheck=True)
+          patches=[("holopy.core.io.io", "yaml", _Yaml)])
 def attrs_roundtrip(c):
-    """unpack_attrs(pack_attrs(a)) restores every attribute: scalars, None, and array-valued (per-channel) ones with their coordinates"""
-    if not c.symbolic:
-        return
+    """unpack_attrs(pack_attrs(a)) restores every attribute: scalars (including zero), None, and array-valued (per-channel)
+    ones with their coordinates.  Symbolically PyYAML is an inverse pair; natively the real PyYAML is used."""
     n0, w_r, w_g, s0 = c.real("index"), c.real("w_red"), c.real("w_green"), c.real("noise")
     vals = np.zeros((2, 2, 2))
     im = data_grid(vals, spacing=0.1, extra_dims={'illumination': ['red', 'green']})
     im = update_metadata(im, medium_index=n0, illum_wavelen={'red': w_r, 'green': w_g}, illum_polarization=(1, 0))
+    im.attrs['exposure'] = s0
+    im.attrs['zero_valued'] = 0.0
     im.name = 'holo'
     packed = c.call(hio.pack_attrs, im)
     back = c.call(hio.unpack_attrs, packed)
     c.ensures("keys", set(back) == set(im.attrs))
-    c.ensures("scalar-restored", c.eq(back['medium_index'], n0))
+    c.ensures("scalar-restored", c.and_(c.eq(back['medium_index'], n0), c.eq(back['exposure'], s0)))
+    c.ensures("zero-restored", back.get('zero_valued') is not None and c.eq(back['zero_valued'], 0.0))
     c.ensures("none-restored", back['noise_sd'] is None)
     w = back['illum_wavelen']
     c.ensures("per-channel-restored", c.and_(isinstance(w, xr.DataArray), w.dims == ('illumination',),
